@@ -332,9 +332,83 @@ def falsy_root_case(case):
     return dict(reproduced=bool(violated), violated=violated[:6])
 
 
+def equal_targets_case(case):
+    """C09: registrations made on two DISTINCT observer objects that compare equal (value-based __eq__) are two registrations:
+    each is counted on its own object, survives the other object's collection, and n removals undo n registrations."""
+    import gc
+    from traits.api import HasTraits, Instance, Int, Str
+    from traits.observation.exceptions import NotifierNotFound
+    violated = []
+
+    class Leaf(HasTraits):
+        v = Int()
+
+    class Tag(HasTraits):
+        label = Str()
+        leaf = Instance(Leaf)
+
+        def __eq__(self, other):
+            return type(other) is type(self) and other.label == self.label
+
+        def __hash__(self):
+            return hash(self.label)
+
+    def pop(o, n):
+        return len(o._trait(n, 2)._notifiers(True))
+    for dispatch in ("same", "ui"):
+        leaf = Leaf()
+        a, b = Tag(label="x", leaf=leaf), Tag(label="x", leaf=leaf)
+        calls = []
+
+        def handler(event):
+            calls.append(event.new)
+        base = (pop(leaf, "v"), pop(a, "leaf"), pop(b, "leaf"))
+        a.observe(handler, "leaf.v")
+        b.observe(handler, "leaf.v")
+        if pop(leaf, "v") != base[0] + 2:
+            violated.append("two registrations on two equal-but-distinct objects: leaf.v holds %d new notifier(s), expected 2" % (pop(leaf, "v") - base[0]))
+        leaf.v += 1
+        if len(calls) != 2:
+            violated.append("two registrations on two distinct objects: %d call(s) per change, expected 2" % len(calls))
+        try:
+            a.observe(handler, "leaf.v", remove=True)
+        except NotifierNotFound as e:
+            violated.append("removing a's registration raised %r" % e)
+        del calls[:]
+        leaf.v += 1
+        if len(calls) != 1:
+            violated.append("after removing a's registration b's must still fire once, got %d" % len(calls))
+        try:
+            a.observe(handler, "leaf.v", remove=True)
+            violated.append("a second removal on a did not raise NotifierNotFound")
+        except NotifierNotFound:
+            pass
+        except Exception as e:
+            violated.append("a second removal on a raised %r" % e)
+        try:
+            b.observe(handler, "leaf.v", remove=True)
+        except NotifierNotFound as e:
+            violated.append("removing b's registration raised %r" % e)
+        if (pop(leaf, "v"), pop(a, "leaf"), pop(b, "leaf")) != base:
+            violated.append("populations after n adds / n removes: %r, initially %r" % ((pop(leaf, "v"), pop(a, "leaf"), pop(b, "leaf")), base))
+        # one of the two objects is collected: the other's registration is unaffected
+        a.observe(handler, "leaf.v")
+        b.observe(handler, "leaf.v")
+        del a
+        gc.collect()
+        del calls[:]
+        try:
+            leaf.v += 1
+        except Exception as e:
+            violated.append("change after collection raised %r" % e)
+        if len(calls) != 1:
+            violated.append("after the OTHER observer object was collected b's registration fires %d time(s), expected 1" % len(calls))
+    return dict(reproduced=bool(violated), violated=violated[:6])
+
+
 def main():
     case = json.loads(sys.stdin.read())
-    out = {"atomic": atomic_case, "reachability": reachability_case, "legacy": legacy_case, "falsy_root": falsy_root_case}[case["family"]](case)
+    out = {"atomic": atomic_case, "reachability": reachability_case, "legacy": legacy_case, "falsy_root": falsy_root_case, "equal_targets": equal_targets_case}[case["family"]](case)
     print(json.dumps(out, default=repr))
 
 
